@@ -37,6 +37,7 @@ UNITS = {
                               "it_int": ["C14", "C18"], "it_byte_label|it_word_label": ["C04", "C12", "C14"], "get_type": ["C08", "C14"]}},
     "assembler": {"tpl": "assembler.rs", "props": ["C08", "C12", "C14", "C16", "C18", "C01", "C02", "C03", "C04", "C05", "C06", "C07", "C11", "C17", "C19"],
                   "assumes": ["unit assembler: ASSUMED contract of the nested PreprocessorParser::parse inside macro_use = the contract of macro_use itself one nesting level down (freeze/release balanced, an enclosing use keeps its position, expansion set restored, macro table unchanged, code only appended): induction on the nesting depth; that depth is bounded (termination) is not proved",
+                              "unit assembler: assumed of the nested parse: an UnrecognizedToken error with an empty token text (a diagnostic built by the error! macro) carries at least its one message (macro_use indexes expected[0] in that case)",
                               "unit assembler: rewrite R15 (String::replace -> uninterpreted text): which text is expanded is not modelled (C13 not claimed); R8 on field paths (token.1 == \"\")",
                               "unit assembler: assumed: a &str query / removal on HashSet<String> acts on the String with the same characters (two axioms, as for HashMap)"],
                   "fn_props": {**PRELUDE_FNS, "em_\\d+": ["C08", "C16"], "as_proc_def|as_call|as_jmps_loops|as_label": ["C08", "C14"],
